@@ -547,6 +547,18 @@ func c12Static(rec *stats.Rec, bad func(sig, msg string)) error {
 		if !srcConst[string(l.Meta.Source)] || l.Meta.Source == lint.UnknownLintSource {
 			bad("source|"+n, fmt.Sprintf("source %q is not a known LintSource constant", l.Meta.Source))
 		}
+		// "known" to the library itself, by each of its own recognisers: the source parser and JSON decoding
+		var viaString lint.LintSource
+		viaString.FromString(string(l.Meta.Source))
+		if viaString != l.Meta.Source {
+			bad("source-parser|"+n, fmt.Sprintf("LintSource.FromString(%q) gives %q: the lint's source is not one the source parser knows", l.Meta.Source, viaString))
+		}
+		if b, err := json.Marshal(l.Meta.Source); err == nil {
+			var viaJSON lint.LintSource
+			if err := json.Unmarshal(b, &viaJSON); err != nil || viaJSON != l.Meta.Source {
+				bad("source-json|"+n, fmt.Sprintf("the lint's source %q does not survive JSON decoding (%q, %v): not a source the library knows", l.Meta.Source, viaJSON, err))
+			}
+		}
 		if l.Nil {
 			bad("nil-impl|"+n, "nil constructor or nil implementation")
 		}
